@@ -250,7 +250,14 @@ class AsyncHTTP2Connection(AsyncConnectionInterface):
             )
         ]
 
-        self._h2_state.send_headers(stream_id, headers, end_stream=end_stream)
+        try:
+            self._h2_state.send_headers(stream_id, headers, end_stream=end_stream)
+        except h2.exceptions.ProtocolError:
+            # h2 validates the headers while it is encoding them, so a rejected
+            # request may already have changed the HPACK state that all later
+            # requests on this connection would be encoded against.
+            self._connection_error = True
+            raise
         self._h2_state.increment_flow_control_window(2**24, stream_id=stream_id)
         await self._write_outgoing_data(request)
 
